@@ -9,6 +9,25 @@ from .rules_flow import Flow
 
 
 # ---------------------------------------------------------------------------------------------
+def raises_are_findings(rule):
+    """The exact evaluator runs repository code on inputs of the rule's own domain (every graph, every documented token,
+    every coefficient pattern ...): an exception raised there is raised for a valid input.  Where the rule body does not
+    treat it itself, it is reported under the rule instead of ending the run."""
+    def deco(fn):
+        import functools
+
+        @functools.wraps(fn)
+        def wrapper(rep, *a, **k):
+            try:
+                return fn(rep, *a, **k)
+            except CERaise as ex:
+                if rule not in rep.rules:
+                    raise
+                rep.finding(rule, f"raise:{ex.etype}:{(ex.where or '').split(' [')[0]}", f"{ex.where or 'evaluated code'}: raises {ex.etype} ({ex.msg[:100]}) on an input of the rule's domain (evaluated exactly, input taken from the rule's enumeration)")
+        return wrapper
+    return deco
+
+
 def K3_class_tables(rep, flow: Flow):
     rep.rule("K3", "class tables: start indices begin at 0, increase strictly, end at K(n) = 2/5/18/93/760; one start index per entanglement structure; each structure's block size equals the count of its combinatorics entry", floor=5)
     prog = flow.prog
@@ -78,6 +97,7 @@ def _new_stabilizer(ce, prog, data):
     return inst
 
 
+@raises_are_findings("K4")
 def K4_codec(rep, flow: Flow, tier):
     rep.rule("K4", "Pauli-character codec: the parser maps I/X/Y/Z to (x,z) = (0,0)/(1,0)/(1,1)/(0,1) at [qubit, generator], signs '', '+' -> 0 and '-' -> 1, and the printer is its inverse (string -> object -> string is the identity up to an explicit '+')", floor=100, exhaustive=True)
     rep.rule("B4", "the reversed-order export differs from the default export only by mirroring the characters after the sign", floor=50, exhaustive=True)
@@ -143,6 +163,7 @@ def _graph(ce, prog, n, edges):
     return g
 
 
+@raises_are_findings("K5")
 def K5_graph_form(rep, flow: Flow):
     rep.rule("K5", "graph form: Stabilizer(graph) stores R = identity, S = adjacency matrix, phases = 0 (generators X_v Z_N(v)), for every graph on 2..4 vertices", floor=70, exhaustive=True)
     prog = flow.prog
@@ -160,6 +181,7 @@ def K5_graph_form(rep, flow: Flow):
                 rep.ok("K5", 1, nontrivial=(n, tuple(edges)), sample=f"n={n} edges {edges}: R = I, S = adjacency, phases = 0")
 
 
+@raises_are_findings("E2")
 def E2_graph_circuit(rep, flow: Flow):
     rep.rule("E2", "graph-state circuit: h on every vertex and one cz per edge for EVERY graph including the edgeless one (no gate call fed from a possibly empty star-argument); all graphs on 2..4 vertices", floor=70, exhaustive=True)
     prog = flow.prog
@@ -224,6 +246,7 @@ def mm(a, b):
     return tuple(tuple(sum(a[i][k] * b[k][j] for k in range(2)) % 2 for j in range(2)) for i in range(2))
 
 
+@raises_are_findings("K7")
 def K7_branches(rep, flow: Flow):
     rep.rule("K7", "layer -> gates: exactly the six invertible 2x2 blocks are accepted, and for each the product of the emitted gates' symplectic matrices (later gate multiplies from the left) equals the block; the other ten patterns are rejected", floor=16, exhaustive=True)
     prog = flow.prog
@@ -257,6 +280,7 @@ def K7_branches(rep, flow: Flow):
             rep.ok("K7", 1, nontrivial=c, sample=f"{list(c)} -> {[e[0] for e in rec.log]} (product = block)")
 
 
+@raises_are_findings("K7")
 def K7_two_qubits(rep, flow: Flow):
     """the gates of qubit i land on qubit i: all 36 pairs of valid blocks on two qubits"""
     prog = flow.prog
@@ -391,6 +415,7 @@ def _k6_by_kernel_stub(rep, flow):
     flow._k6_stub = (cs, ce, f, ns[0].fq)
 
 
+@raises_are_findings("K6")
 def K6_filter(rep, flow: Flow):
     rep.rule("K6", "validity filter of the layer search: over all 16 coefficient patterns of one qubit and all 256 of two qubits, a candidate is accepted exactly when every qubit's combination of basis blocks is invertible (a genuine single-qubit Clifford), and the returned blocks are those combinations at the right diagonal positions", floor=272, exhaustive=True)
     try:
@@ -528,6 +553,7 @@ def _k9_by_kernel_stub(rep, flow):
         rep.ok("K9", n_ok, nontrivial="span-by-evaluation", sample=f"{n_ok} witness kernels (2 and 3 rows, every subset of rows): the single valid element of the span is found")
 
 
+@raises_are_findings("K9")
 def K9_enumeration(rep, flow: Flow):
     rep.rule("K9", "the whole span of the kernel basis is searched: (a) evaluated with the kernel routine stubbed - for kernels of 2 and 3 rows and every non-empty subset of the rows, the one valid candidate placed at that subset's sum is found; (b) where the enumeration is written as product([0,1], repeat=r) x kernel in the function itself, r is the number of kernel rows", floor=1)
     f = flow.prog.func(FLC)
@@ -665,6 +691,7 @@ def E1_kernel_shape(rep, flow: Flow, fq="f2_algebra.null_space"):
 
 
 # ---------------------------------------------------------------------------------------------
+@raises_are_findings("K10")
 def K10_K11_codec(rep, flow: Flow, tier):
     rep.rule("K10", "compress and decompress realise the same bit layout: edge (i,j), i<j, <-> bit rank(i,j) in row-major upper-triangular order (documented 5x5 layout), by loop-nest shape (counter advanced exactly once per (i,j), unconditionally) and evaluation on every single-edge graph for n = 2..6", floor=70, exhaustive=True)
     rep.rule("K11", "edge primitives: add_edge stores both (a,b) and (b,a) and ignores a = b; has_edge tests the stored entry", floor=4, exhaustive=True)
@@ -927,6 +954,7 @@ def _memo(tag, tree, compute):
     return res
 
 
+@raises_are_findings("K12")
 def K12_local_complementation(rep, flow: Flow, tier):
     nmax = 5 if tier == "quick" else 6
     rep.rule("K12", f"local complementation (in-place and copying form), evaluated for EVERY graph on 2..{nmax} vertices and every vertex: exactly the edges among the neighbours are complemented, the result is a simple graph (symmetric 0/1, zero diagonal), applying it twice gives the original back, the copying form leaves its receiver untouched, and compress() - asked before and after - follows the edges", floor=10, exhaustive=True)
